@@ -439,4 +439,6 @@ def run(ctx):
     ctx.explanation = ('C10: each writer is evaluated on symbolic values and its reader on the writer\'s output (the real DataModelDict container holding symbols), and the composition is '
                        'compared with the identity: unit models for all ranks incl. non-contiguous views, Box (with cache reset on reading), Atoms, System (scaled storage, partial masses), '
                        'ElasticConstants; format routing of dump/load. Not decided: the third-party JSON/XML encoders and dtypes after the text round trip.')
-    ctx.run_rules([uc_model, box_model, atoms_model, system_model, ec_model, fmt])
+    # reading a system model goes through System.__init__ with the symbols and masses of the file: lists longer than the atom types in use are kept in full
+    from .c06 import construct_lists
+    ctx.run_rules([uc_model, box_model, atoms_model, system_model, ec_model, fmt, lambda c: construct_lists(c, 'SYSTEM-MODEL')])
